@@ -1,7 +1,7 @@
 (* Lemmas about Model/Sample.v (C14), part 1: the samplers that read a TT-tensor
-   (sample, sample_square).  Integer samplers are in Proofs/SampleIntP.v. *)
+   (sample, sample_square).  Integer samplers and row utilities are in Proofs/SampleIntP.v. *)
 From Coq Require Import List Arith Lia Ring PeanoNat ZArith Bool Permutation.
-From TV Require Import Num.Ops Lin.Tab Lin.BigSum TT.Chain Model.Sample.
+From TV Require Import Num.Ops Lin.Tab Lin.BigSum TT.Chain Model.Sample Proofs.SampleIntP.
 Import ListNotations.
 
 (* ---------- result plumbing ---------- *)
@@ -353,6 +353,622 @@ Proof.
     rewrite <- (nth_pvec _ _ _ _ Hi0) in Hne. fold w1 pv in Hne. now rewrite Hpv in Hne by auto.
 Qed.
 
+(* ====================================================================================================== *)
+(* ---------- sample: shape and bounds for ANY tensor (signed entries, any ranks): only the generator contract ---------- *)
+Lemma normalise_shape p q : normalise K p = Ok q -> length q = length p /\ q <> [].
+Proof.
+  intros H. apply normalise_ok in H as [Hs ->]. split; [apply map_length|].
+  intros E. apply map_eq_nil in E. now apply (lsum_nil_ne _ Hs).
+Qed.
+Lemma clip_length p : length (clip K p) = length p. Proof. apply map_length. Qed.
+Lemma phis_length (Y : list (core T)) : length (phis K Y) = S (length Y).
+Proof. induction Y as [|G Y IH]; simpl; auto. Qed.
+
+Lemma walk_bounds base m j : forall Ys ws s0 k s1, length ws = length Ys ->
+  walk base m j k (zipw (row_step K ch) Ys ws) (Ok s0) = Ok s1 ->
+  exists idx, ridx s1 = ridx s0 ++ idx /\ inb (shape Ys) idx.
+Proof.
+  induction Ys as [|G Ys IH]; intros ws s0 k s1 L Hw.
+  - destruct ws; [|discriminate]. simpl in Hw. inversion Hw; subst. exists []. rewrite app_nil_r. split; [auto|constructor].
+  - destruct ws as [|w ws]; [discriminate|]. cbn [zipw walk rbind] in Hw. rewrite row_step_eq in Hw.
+    destruct (normalise K (clip K (pvec K (rv s0) G w))) as [p|e] eqn:En;
+      [|cbn [rbind] in Hw; now rewrite walk_err in Hw].
+    cbn [rbind] in Hw. apply normalise_shape in En as [Lp Hne].
+    rewrite clip_length, pvec_length in Lp.
+    apply IH in Hw as (idx & E & Hb); [|simpl in L; lia]. cbn [ridx] in E.
+    exists (ch (callno base m k j) O p :: idx). rewrite <- app_assoc in E. split; [exact E|].
+    cbn [shape map]. constructor; [|exact Hb]. rewrite <- Lp. now apply Hch.
+Qed.
+
+Theorem sample_bounds Y m u II P : sample K ch Y m u = Ok (II, P) ->
+  length II = m /\ Forall (inb (shape Y)) II.
+Proof.
+  intros H. destruct Y as [|G0 Y']; [discriminate|]. unfold sample in H.
+  apply rbind_ok in H as (p0 & Hp0 & H). apply normalise_shape in Hp0 as [Lp0 Hne0].
+  rewrite clip_length, map_length in Lp0. unfold pvec0 in Lp0. rewrite tab_length in Lp0.
+  apply rmap_ok in H as (rows & Hrows & E). inversion E; subst II P. clear E.
+  set (st0 := tab m (fun j => Ok (mk_rowst (crow K G0 (ch O j p0)) [ch O j p0] [p0]))) in *.
+  apply rall_ok in Hrows as [HL HN]. rewrite (modes_length _ _ _ _ st0) in HL, HN by apply tab_length.
+  rewrite map_length. split; [exact HL|].
+  apply Forall_forall. intros x Hx. apply (In_nth _ _ []) in Hx as (j & Hj & <-).
+  rewrite map_length, HL in Hj.
+  specialize (HN j (Err OtherError) rowst0 Hj). rewrite modes_nth in HN by (auto; apply tab_length).
+  unfold st0 in HN. rewrite nth_tab in HN by auto.
+  apply walk_bounds in HN as (idx & E & Hb).
+  2:{ pose proof (phis_length Y') as HP. destruct (phis K Y'); simpl in *; lia. }
+  change (@nil nat) with (ridx rowst0). rewrite map_nth, E. cbn [ridx app shape map].
+  constructor; [|exact Hb]. rewrite <- Lp0. now apply Hch.
+Qed.
+
+(* ====================================================================================================== *)
+(* ---------- sample_square ---------- *)
+Definition sq (x : T) : T := x * x.
+(* the rows of the right unfolding G[a, (i,b)] are orthonormal: what orthogonalize(Y, 0) establishes for cores 1..d-1 *)
+Definition row_orth (G : core T) : Prop :=
+  forall a a', a < cr1 G -> a' < cr1 G ->
+    bsum (cn G) (fun i => bsum (cr2 G) (fun b => cget G a i b * cget G a' i b)) = if Nat.eqb a a' then 1 else 0.
+(* squared Frobenius norm of the tensor *)
+Definition total2 (Y : list (core T)) : T := msum (shape Y) (fun idx => sq (get Y idx)).
+
+Lemma bsum_mul_bsum n m f g : bsum n f * bsum m g = bsum n (fun a => bsum m (fun a' => f a * g a')).
+Proof. rewrite <- bsum_mul_r by auto. apply bsum_ext; intros a Ha. now rewrite <- bsum_mul_l by auto. Qed.
+
+(* isometry: summing the squared norms of v.G[:, i, :] over i gives the squared norm of v *)
+Lemma nrm2_vstep_sum G v : row_orth G ->
+  bsum (cn G) (fun i => nrm2 (cr2 G) (vstep v G i)) = nrm2 (cr1 G) v.
+Proof.
+  intros HO. unfold nrm2.
+  transitivity (bsum (cr1 G) (fun a => bsum (cr1 G) (fun a' => (nth a v 0 * nth a' v 0) *
+       bsum (cn G) (fun i => bsum (cr2 G) (fun b => cget G a i b * cget G a' i b))))).
+  - rewrite (bsum_ext K (cn G) _ (fun i => bsum (cr1 G) (fun a => bsum (cr1 G) (fun a' => bsum (cr2 G) (fun b =>
+               (nth a v 0 * nth a' v 0) * (cget G a i b * cget G a' i b)))))).
+    2:{ intros i Hi.
+        rewrite (bsum_ext K (cr2 G) _ (fun b => bsum (cr1 G) (fun a => bsum (cr1 G) (fun a' =>
+                   (nth a v 0 * nth a' v 0) * (cget G a i b * cget G a' i b))))).
+        2:{ intros b Hb. rewrite nth_vstep by auto. rewrite bsum_mul_bsum.
+            apply bsum_ext; intros a Ha. apply bsum_ext; intros a' Ha'. ring. }
+        rewrite bsum_swap by auto. apply bsum_ext; intros a Ha. now rewrite bsum_swap by auto. }
+    rewrite bsum_swap by auto. apply bsum_ext; intros a Ha. rewrite bsum_swap by auto.
+    apply bsum_ext; intros a' Ha'.
+    rewrite <- bsum_mul_l by auto. apply bsum_ext; intros i Hi. now rewrite <- bsum_mul_l by auto.
+  - apply bsum_ext; intros a Ha. rewrite (bsum_single K Rth (cr1 G) a); auto.
+    + rewrite HO by auto. rewrite Nat.eqb_refl. ring.
+    + intros a' Ha' Hne. rewrite HO by auto. destruct (Nat.eqb_spec a a'); [congruence|ring].
+Qed.
+
+(* squared right marginal: summing the squared completions of a partial product gives its squared norm *)
+Lemma marg2_right Ys : forall r v, chain r Ys 1 -> length v = r -> Forall row_orth Ys ->
+  msum (shape Ys) (fun idx => sq (nth O (run v Ys idx) 0)) = nrm2 r v.
+Proof.
+  induction Ys as [|G Ys IH]; intros r v Hc L HO.
+  - simpl in Hc. subst r. cbn. unfold nrm2, sq. simpl. ring.
+  - destruct Hc as [Hr Hc]. inversion HO as [|? ? HG HO']; subst. cbn [shape map]. cbn [Chain.msum].
+    rewrite <- nrm2_vstep_sum by auto. apply bsum_ext; intros i Hi. cbn [Chain.run].
+    apply (IH (cr2 G)); [exact Hc | apply vstep_length | exact HO'].
+Qed.
+
+Lemma lsum_map_tabA {A} n (f : nat -> A) (g : A -> T) : lsum (map g (tab n f)) = bsum n (fun i => g (f i)).
+Proof. rewrite map_tab. apply lsum_tab. Qed.
+Lemma lsum_sq_nrm2 q : lsum (map (fun x => x * x) q) = nrm2 (length q) q.
+Proof. rewrite <- (tab_nth 0 q) at 1. rewrite lsum_map_tab. reflexivity. Qed.
+Definition qrows (v : list T) (G : core T) : list (list T) := tab (cn G) (fun i => vstep v G i).
+Lemma sqnorms_length rows : length (sqnorms K rows) = length rows. Proof. apply map_length. Qed.
+Lemma nth_sqnorms_qrows v G i : i < cn G -> nth i (sqnorms K (qrows v G)) 0 = nrm2 (cr2 G) (vstep v G i).
+Proof.
+  intros Hi. unfold sqnorms, qrows. rewrite map_tab, nth_tab by auto.
+  rewrite lsum_sq_nrm2. now rewrite vstep_length.
+Qed.
+Lemma lsum_sqnorms_qrows v G : lsum (sqnorms K (qrows v G)) = bsum (cn G) (fun i => nrm2 (cr2 G) (vstep v G i)).
+Proof.
+  unfold sqnorms, qrows. rewrite lsum_map_tabA. apply bsum_ext; intros i Hi.
+  rewrite lsum_sq_nrm2. now rewrite vstep_length.
+Qed.
+
+Lemma sq_row_step_eq G c s :
+  sq_row_step K ch G c s = rbind (normalise K (sqnorms K (qrows (rv s) G))) (fun p =>
+    Ok (mk_rowst (nth (ch c O p) (qrows (rv s) G) []) (ridx s ++ [ch c O p]) (rP s ++ [p]))).
+Proof. reflexivity. Qed.
+
+(* telescoping for the modes 1..d-1 of one row *)
+Lemma row_chain_sq base m j : forall Ys r v s0 k s1,
+  chain r Ys 1 -> length v = r -> rv s0 = v -> Forall row_orth Ys ->
+  walk base m j k (map (sq_row_step K ch) Ys) (Ok s0) = Ok s1 ->
+  exists idx Pn, ridx s1 = ridx s0 ++ idx /\ rP s1 = rP s0 ++ Pn /\ inb (shape Ys) idx /\
+    length Pn = length Ys /\ Forall (fun p => lsum p = 1) Pn /\
+    lprod K (along 0 idx Pn) * nrm2 r v = sq (nth O (run v Ys idx) 0) /\
+    (Ys <> [] -> nrm2 r v <> 0).
+Proof.
+  induction Ys as [|G Ys IH]; intros r v s0 k s1 Hc L Hv HO Hw.
+  - simpl in Hw. inversion Hw; subst s1. exists [], []. rewrite !app_nil_r. repeat split; auto.
+    + constructor.
+    + simpl in Hc. subst r. unfold nrm2, sq. simpl. ring.
+  - destruct Hc as [Hr Hc]. inversion HO as [|? ? HG HO']; subst. cbn [map walk rbind] in Hw.
+    rewrite sq_row_step_eq in Hw. set (v := rv s0) in *.
+    destruct (normalise K (sqnorms K (qrows v G))) as [p|e] eqn:En; [|cbn [rbind] in Hw; now rewrite walk_err in Hw].
+    cbn [rbind] in Hw. apply normalise_ok in En as [Hs Hp].
+    set (s := lsum (sqnorms K (qrows v G))) in *.
+    assert (Hsum : s = nrm2 (cr1 G) v) by (unfold s; rewrite lsum_sqnorms_qrows; now apply nrm2_vstep_sum).
+    assert (Hpl : length p = cn G) by (rewrite Hp, map_length, sqnorms_length; apply tab_length).
+    assert (Hpne : p <> []).
+    { intros E. apply (lsum_nil_ne _ Hs). apply length_zero_iff_nil.
+      rewrite sqnorms_length. unfold qrows. rewrite tab_length, <- Hpl, E. reflexivity. }
+    set (i := ch (callno base m k j) O p) in *.
+    assert (Hi : i < cn G) by (rewrite <- Hpl; apply Hch; exact Hpne).
+    assert (Eq : nth i (qrows v G) [] = vstep v G i) by (unfold qrows; now rewrite nth_tab).
+    rewrite Eq in Hw.
+    destruct (IH (cr2 G) (vstep v G i) (mk_rowst (vstep v G i) (ridx s0 ++ [i]) (rP s0 ++ [p])) (S k) s1
+                 Hc (vstep_length _ _ _ _) eq_refl HO' Hw)
+      as (idx & Pn & E1 & E2 & Hb & HL & HF & Hprod & _).
+    cbn [ridx rP] in E1, E2.
+    exists (i :: idx), (p :: Pn). rewrite <- !app_assoc in E1, E2. cbn [app] in E1, E2.
+    repeat split; auto.
+    + cbn [shape map]. constructor; auto.
+    + simpl. now rewrite HL.
+    + constructor; [|exact HF]. rewrite Hp. now apply lsum_normalised.
+    + cbn [along lprod fold_right Chain.run]. fold (lprod K (along 0 idx Pn)). rewrite <- Hsum.
+      assert (Hnp : nth i p 0 = nrm2 (cr2 G) (vstep v G i) / s).
+      { rewrite Hp. unfold s. rewrite nth_normalised. now rewrite nth_sqnorms_qrows. }
+      rewrite Hnp. rewrite <- Hprod.
+      set (Mi := nrm2 (cr2 G) (vstep v G i)). set (L' := lprod K (along 0 idx Pn)).
+      transitivity (L' * ((Mi / s) * s)); [ring|]. rewrite div_mul_cancel by auto. ring.
+    + intros _. rewrite <- Hsum. exact Hs.
+Qed.
+
+Lemma mul_div_cancel a b s : s <> 0 -> a * s = b -> a = b / s.
+Proof.
+  intros Hs E. rewrite <- E, Hdiv. transitivity (a * (s * (1 / s))); [|ring]. rewrite Hinv by auto. ring.
+Qed.
+
+Lemma total2_first G0 Zt' : cr1 G0 = 1%nat -> chain (cr2 G0) Zt' 1 -> Forall row_orth Zt' ->
+  lsum (sqnorms K (tab (cn G0) (crow K G0))) = total2 (G0 :: Zt').
+Proof.
+  intros H1 Hc HO. unfold sqnorms. rewrite lsum_map_tabA. unfold total2. cbn [shape map]. cbn [Chain.msum].
+  apply bsum_ext; intros i Hi. rewrite lsum_sq_nrm2. unfold crow at 1. rewrite tab_length.
+  rewrite <- (marg2_right Zt' (cr2 G0)); [|exact Hc|apply tab_length|exact HO].
+  apply msum_ext. intros idx _. unfold Chain.get. cbn [Chain.run]. now rewrite (vstep_one _ _ H1).
+Qed.
+
+(* the property of one drawn row: inside the bounds, d distributions, product of the conditionals = entry^2 / ||Z||^2 *)
+Definition sq_row_ok (Zt : list (core T)) (idx : list nat) (Pj : list (list T)) : Prop :=
+  inb (shape Zt) idx /\ length Pj = length Zt /\ Forall (fun p => lsum p = 1) Pj /\
+  total2 Zt <> 0 /\
+  lprod K (along 0 idx Pj) * total2 Zt = sq (get Zt idx) /\
+  lprod K (along 0 idx Pj) = sq (get Zt idx) / total2 Zt.
+
+Theorem sq_draw_spec base Zt m1 rows :
+  chain 1 Zt 1 -> Forall row_orth (tl Zt) ->
+  sq_draw K ch base Zt m1 = Ok rows ->
+  length rows = m1 /\ forall j, j < m1 -> sq_row_ok Zt (ridx (nth j rows rowst0)) (rP (nth j rows rowst0)).
+Proof.
+  intros Hc HO H. destruct Zt as [|G0 Zt']; [discriminate|]. destruct Hc as [H1 Hc]. cbn [tl] in HO.
+  unfold sq_draw in H. apply rbind_ok in H as (p0 & Hp0 & Hrows).
+  apply normalise_ok in Hp0 as [Hs Hp0].
+  set (q := sqnorms K (tab (cn G0) (crow K G0))) in *. set (s := lsum q) in *.
+  assert (Hsv : s = total2 (G0 :: Zt')) by (now apply total2_first).
+  assert (Hql : length q = cn G0) by (unfold q; rewrite sqnorms_length; apply tab_length).
+  assert (Hp0l : length p0 = cn G0) by (rewrite Hp0, map_length; exact Hql).
+  assert (Hp0ne : p0 <> []).
+  { intros E. apply (lsum_nil_ne _ Hs). apply length_zero_iff_nil. rewrite Hql, <- Hp0l, E. reflexivity. }
+  assert (Hnp0 : forall t, t < cn G0 -> nth t p0 0 = nrm2 (cr2 G0) (crow K G0 t) / s).
+  { intros t Ht. rewrite Hp0. fold s. unfold s. rewrite nth_normalised. fold s. f_equal.
+    unfold q, sqnorms. rewrite map_tab, nth_tab by auto. rewrite lsum_sq_nrm2. unfold crow at 1. now rewrite tab_length. }
+  set (st0 := tab m1 (fun j => Ok (mk_rowst (crow K G0 (ch base j p0)) [ch base j p0] [p0]))) in *.
+  apply rall_ok in Hrows as [HL HN]. rewrite (modes_length _ _ _ _ st0) in HL, HN by apply tab_length.
+  split; [exact HL|]. intros j Hj.
+  specialize (HN j (Err OtherError) rowst0 Hj). rewrite modes_nth in HN by (auto; apply tab_length).
+  unfold st0 in HN. rewrite nth_tab in HN by auto.
+  set (i0 := ch base j p0) in *.
+  assert (Hi0 : i0 < cn G0) by (rewrite <- Hp0l; apply Hch; exact Hp0ne).
+  destruct (row_chain_sq base m1 j Zt' (cr2 G0) (crow K G0 i0) (mk_rowst (crow K G0 i0) [i0] [p0]) 1%nat _
+                Hc (tab_length _ _) eq_refl HO HN)
+      as (idx & Pn & E1 & E2 & Hb & HLn & HF & Hprod & _).
+  cbn [ridx rP app] in E1, E2. rewrite E1, E2.
+  assert (Hmul : lprod K (along 0 (i0 :: idx) (p0 :: Pn)) * total2 (G0 :: Zt') = sq (get (G0 :: Zt') (i0 :: idx))).
+  { cbn [along lprod fold_right]. fold (lprod K (along 0 idx Pn)). rewrite Hnp0 by auto. rewrite <- Hsv.
+    change (get (G0 :: Zt') (i0 :: idx)) with (nth O (run (vstep [1] G0 i0) Zt' idx) 0).
+    rewrite (vstep_one _ _ H1). rewrite <- Hprod.
+    set (Mi := nrm2 (cr2 G0) (crow K G0 i0)). set (L' := lprod K (along 0 idx Pn)).
+    transitivity (L' * ((Mi / s) * s)); [ring|]. rewrite div_mul_cancel by auto. ring. }
+  unfold sq_row_ok. split; [|split; [|split; [|split; [|split]]]].
+  - cbn [shape map]. constructor; auto.
+  - simpl. now rewrite HLn.
+  - constructor; [|exact HF]. rewrite Hp0. fold s. unfold s. now apply lsum_normalised.
+  - rewrite <- Hsv. exact Hs.
+  - exact Hmul.
+  - apply mul_div_cancel; [rewrite <- Hsv; exact Hs | exact Hmul].
+Qed.
+
+(* the same statement about the tensor Y that was orthogonalised: Y = c * Z entrywise (c = 2^p of use_stab) *)
+Lemma total2_scaled Y Zt c : shape Y = shape Zt ->
+  (forall idx, inb (shape Zt) idx -> get Y idx = c * get Zt idx) -> total2 Y = (c * c) * total2 Zt.
+Proof.
+  intros Hsh HY. unfold total2. rewrite Hsh, <- msum_mul_l by auto. apply msum_ext. intros idx Hidx.
+  rewrite HY by auto. unfold sq. ring.
+Qed.
+Theorem sq_row_ok_scaled Y Zt c idx Pj : shape Y = shape Zt ->
+  (forall idx, inb (shape Zt) idx -> get Y idx = c * get Zt idx) ->
+  sq_row_ok Zt idx Pj ->
+  lprod K (along 0 idx Pj) * total2 Y = sq (get Y idx) /\
+  (total2 Y <> 0 -> lprod K (along 0 idx Pj) = sq (get Y idx) / total2 Y).
+Proof.
+  intros Hsh HY (Hb & _ & _ & _ & Hm & _).
+  assert (E : lprod K (along 0 idx Pj) * total2 Y = sq (get Y idx)).
+  { rewrite (total2_scaled Y Zt c Hsh HY), HY by auto. unfold sq in *.
+    transitivity ((c * c) * (lprod K (along 0 idx Pj) * total2 Zt)); [ring|]. rewrite Hm. unfold sq. ring. }
+  split; [exact E|]. intros Hne. now apply mul_div_cancel.
+Qed.
+
+(* ---------- sample_square: the restart loop ---------- *)
+Variable shufr : nat -> list (list nat) -> list (list nat).
+Hypothesis Hshufr : forall c l, Permutation l (shufr c l).
+
+Lemma take_m_ok {A} m (l : list A) r : take_m m l = Ok r -> r = firstn m l /\ length r = m.
+Proof.
+  unfold take_m. destruct (length (firstn m l) =? m) eqn:E; [|discriminate]. intros H; inversion H; subst.
+  split; auto. now apply Nat.eqb_eq.
+Qed.
+
+(* one attempt as it is reported: (drawn rows, their probability vectors) *)
+Definition attempt_ok (Zt : list (core T)) (att : list (list nat) * list (list (list T))) : Prop :=
+  length (fst att) = length (snd att) /\
+  forall j, j < length (fst att) -> sq_row_ok Zt (nth j (fst att) []) (nth j (snd att) []).
+
+Lemma sq_draw_attempt base Zt m1 rows : chain 1 Zt 1 -> Forall row_orth (tl Zt) ->
+  sq_draw K ch base Zt m1 = Ok rows ->
+  attempt_ok Zt (map ridx rows, map rP rows) /\ Forall (inb (shape Zt)) (map ridx rows).
+Proof.
+  intros Hc HO H. destruct (sq_draw_spec _ _ _ _ Hc HO H) as [HL HR].
+  assert (Hrow : forall j, j < m1 -> sq_row_ok Zt (nth j (map ridx rows) []) (nth j (map rP rows) [])).
+  { intros j Hj. change (@nil nat) with (ridx rowst0). change (@nil (list T)) with (rP rowst0).
+    rewrite !map_nth. now apply HR. }
+  split.
+  - split; cbn [fst snd]; [now rewrite !map_length|]. rewrite map_length, HL. exact Hrow.
+  - apply Forall_forall. intros x Hx. apply (In_nth _ _ []) in Hx as (j & Hj & <-).
+    rewrite map_length, HL in Hj. apply (Hrow j Hj).
+Qed.
+
+Theorem sq_loop_spec Zt m unique : chain 1 Zt 1 -> Forall row_orth (tl Zt) ->
+  forall fuel base m_fact max_rep II atts,
+  sq_loop K ch shufr fuel base Zt m unique m_fact max_rep = Ok (II, atts) ->
+  length II = m /\ Forall (inb (shape Zt)) II /\ (unique = true -> NoDup II) /\
+  atts <> [] /\ Forall (attempt_ok Zt) atts /\
+  (forall x, In x II -> In x (fst (last atts ([], [])))).
+Proof.
+  intros Hc HO. induction fuel as [|fuel IH]; intros base m_fact max_rep II atts H; [discriminate|].
+  cbn [sq_loop] in H. apply rbind_ok in H as (rows & Hd & H).
+  destruct (sq_draw_attempt _ _ _ _ Hc HO Hd) as [Hatt Hinb].
+  set (I0 := map ridx rows) in *. set (att := (I0, map rP rows)) in *.
+  destruct unique.
+  - destruct (length (uniq_rows I0) <? m) eqn:Elt.
+    + destruct ((max_rep <? 0)%Z || (1000000 <? Z.of_nat m_fact)%Z)%bool; [discriminate|].
+      apply rmap_ok in H as ([I1 atts1] & Hrec & E). inversion E; subst II atts. clear E. cbn [fst snd].
+      destruct (IH _ _ _ _ _ Hrec) as (A1 & A2 & A3 & A4 & A5 & A6).
+      repeat split; auto; [discriminate|].
+      intros x Hx. destruct atts1 as [|a1 atts1]; [congruence|]. apply A6 in Hx. exact Hx.
+    + apply rmap_ok in H as (I' & Ht & E). inversion E; subst II atts. clear E.
+      apply take_m_ok in Ht as [-> HLm].
+      assert (Hin : forall x, In x (firstn m (shufr O (uniq_rows I0))) -> In x I0).
+      { intros x Hx. apply firstn_in in Hx. apply (Permutation_in _ (Permutation_sym (Hshufr O _))) in Hx.
+        exact (proj1 (uniq_rows_in _ _) Hx). }
+      repeat split; auto; try discriminate.
+      * apply Forall_forall. intros x Hx. rewrite Forall_forall in Hinb. apply Hinb, Hin, Hx.
+      * intros _. apply firstn_nodup. eapply Permutation_NoDup; [apply Hshufr|]. apply uniq_rows_nodup.
+  - apply rmap_ok in H as (I' & Ht & E). inversion E; subst II atts. clear E.
+    apply take_m_ok in Ht as [-> HLm].
+    repeat split; auto; try discriminate.
+    + apply Forall_forall. intros x Hx. apply firstn_in in Hx. rewrite Forall_forall in Hinb. now apply Hinb.
+    + intros x Hx. cbn. now apply firstn_in in Hx.
+Qed.
+
+(* the fuel handed to the loop is enough: the out-of-fuel marker is never returned *)
+Lemma modes_no_oof base m (steps : list stepT) k st : length st = m ->
+  (forall stp c s, In stp steps -> no_oof (stp c s)) -> Forall no_oof st -> Forall no_oof (modes base m k steps st).
+Proof.
+  intros L Hs Hst. apply Forall_forall. intros x Hx. apply (In_nth _ _ (Err OtherError)) in Hx as (j & Hj & <-).
+  rewrite modes_length in Hj by auto. rewrite modes_nth by auto. apply walk_no_oof; auto.
+  rewrite Forall_forall in Hst. apply Hst. apply nth_In. lia.
+Qed.
+Lemma sq_draw_no_oof base Zt m1 : no_oof (sq_draw K ch base Zt m1).
+Proof.
+  unfold sq_draw. destruct Zt as [|G0 Zt']; [discriminate|].
+  apply rbind_no_oof; [apply normalise_no_oof|]. intros p0. apply rall_no_oof. apply modes_no_oof.
+  - apply tab_length.
+  - intros stp c s Hin. apply in_map_iff in Hin as (G & <- & _). unfold sq_row_step.
+    apply rbind_no_oof; [apply normalise_no_oof|]. intros; discriminate.
+  - apply Forall_forall. intros x Hx. apply in_tab in Hx as (j & _ & ->). discriminate.
+Qed.
+Lemma rmap_no_oof {A B} (f : A -> B) r : no_oof r -> no_oof (rmap f r).
+Proof. unfold no_oof. destruct r; simpl; [discriminate|]. intros H E. inversion E; subst. now apply H. Qed.
+Lemma take_m_no_oof {A} m (l : list A) : no_oof (take_m m l).
+Proof. unfold take_m, no_oof. destruct (length (firstn m l) =? m); discriminate. Qed.
+Lemma sq_loop_no_oof Zt m unique : forall fuel base m_fact max_rep,
+  (1 <= fuel)%nat -> (max_rep + 2 <= Z.of_nat fuel)%Z ->
+  no_oof (sq_loop K ch shufr fuel base Zt m unique m_fact max_rep).
+Proof.
+  induction fuel as [|fuel IH]; intros base m_fact max_rep H1 H2; [lia|].
+  cbn [sq_loop]. apply rbind_no_oof; [apply sq_draw_no_oof|]. intros rows.
+  destruct unique; [|apply rmap_no_oof, take_m_no_oof].
+  destruct (length (uniq_rows (map ridx rows)) <? m); [|apply rmap_no_oof, take_m_no_oof].
+  destruct (max_rep <? 0)%Z eqn:E; cbn [orb]; [discriminate|].
+  destruct (1000000 <? Z.of_nat m_fact)%Z; [discriminate|].
+  apply Z.ltb_ge in E. apply rmap_no_oof, IH; lia.
+Qed.
+Theorem sample_square_terminates Zt m unique m_fact max_rep :
+  sample_square K ch shufr Zt m unique m_fact max_rep <> Err OutOfFuel.
+Proof. unfold sample_square. apply sq_loop_no_oof; lia. Qed.
+
+Theorem sample_square_spec Zt m unique m_fact max_rep II atts : chain 1 Zt 1 -> Forall row_orth (tl Zt) ->
+  sample_square K ch shufr Zt m unique m_fact max_rep = Ok (II, atts) ->
+  length II = m /\ Forall (inb (shape Zt)) II /\ (unique = true -> NoDup II) /\
+  atts <> [] /\ Forall (attempt_ok Zt) atts /\
+  (forall x, In x II -> In x (fst (last atts ([], [])))).
+Proof. intros Hc HO H. exact (sq_loop_spec Zt m unique Hc HO _ _ _ _ _ _ H). Qed.
+
+
+(* ====================================================================================================== *)
+(* ---------- sample returns (progress): unsert = 0, total <> 0, the generator never draws a zero-probability index ---------- *)
+Hypothesis Hpos : forall c t p, lsum p = 1 -> nth (ch c t p) p 0 <> 0.
+
+Lemma normalise_intro p : lsum p <> 0 -> normalise K p = Ok (map (fun x => x / lsum p) p).
+Proof.
+  intros H. unfold normalise. destruct (oeqb K (lsum p) 0) eqn:E; [|reflexivity].
+  apply Heqb in E. contradiction.
+Qed.
+Lemma rall_intro {A} (l : list (result A)) : (forall x, In x l -> exists a, x = Ok a) -> exists rows, rall l = Ok rows.
+Proof.
+  induction l as [|x l IH]; intros H; simpl; [eauto|].
+  destruct (H x (or_introl eq_refl)) as (a & ->). destruct IH as (rows & ->); [intros; apply H; now right|].
+  simpl. eauto.
+Qed.
+
+Lemma walk_succeeds base m j : forall Ys r v s0 k,
+  chain r Ys 1 -> length v = r -> rv s0 = v -> nn_tail v Ys ->
+  (Ys <> [] -> dot r v (hd [] (phis K Ys)) <> 0) ->
+  exists s1, walk base m j k (zipw (row_step K ch) Ys (tl (phis K Ys))) (Ok s0) = Ok s1.
+Proof.
+  induction Ys as [|G Ys IH]; intros r v s0 k Hc L Hv Hn Hne.
+  - simpl. eauto.
+  - destruct Hc as [Hr Hc]. rewrite tl_phis. rewrite (phis_cons Ys). cbn [zipw walk].
+    set (w := hd [] (phis K Ys)) in *. cbn [rbind]. rewrite row_step_eq. rewrite Hv.
+    assert (Hclip : clip K (pvec K v G w) = pvec K v G w) by (apply clip_nn, pvec_nn; auto).
+    rewrite Hclip.
+    assert (Hs : lsum (pvec K v G w) <> 0).
+    { rewrite lsum_pvec. unfold w. rewrite <- hd_phis. subst r. apply Hne. discriminate. }
+    rewrite (normalise_intro _ Hs). cbn [rbind].
+    set (s := lsum (pvec K v G w)) in *. set (p := map (fun x => x / s) (pvec K v G w)) in *.
+    assert (Hpl : length p = cn G) by (unfold p; rewrite map_length; apply pvec_length).
+    assert (Hpne : p <> []).
+    { intros E. apply (lsum_nil_ne _ Hs). apply length_zero_iff_nil. rewrite pvec_length.
+      rewrite <- Hpl, E. reflexivity. }
+    set (i := ch (callno base m k j) O p) in *.
+    assert (Hi : i < cn G) by (rewrite <- Hpl; apply Hch; exact Hpne).
+    assert (Hp1 : lsum p = 1) by (unfold p, s; now apply lsum_normalised).
+    assert (Hnz : dot (cr2 G) (vstep v G i) w <> 0).
+    { intros Z. apply (Hpos (callno base m k j) O p Hp1). fold i. unfold p, s. rewrite nth_normalised.
+      rewrite nth_pvec by auto. rewrite Z. apply div_0_l. }
+    apply (IH (cr2 G) (vstep v G i)); auto.
+    + apply vstep_length.
+    + intros idx Hidx. apply (Hn (i :: idx)). constructor; auto.
+Qed.
+
+Theorem sample_succeeds Y m : Y <> [] ->
+  chain 1 Y 1 -> (forall idx, inb (shape Y) idx -> nn (get Y idx)) -> total Y <> 0 ->
+  exists II P, sample K ch Y m 0 = Ok (II, P).
+Proof.
+  intros HY Hc Hnn Ht. destruct Y as [|G0 Y']; [congruence|]. destruct Hc as [H1 Hc].
+  unfold sample. set (w1 := hd [] (phis K Y')). rewrite (pvec0_pvec _ _ H1).
+  set (pv := pvec K [1] G0 w1).
+  assert (Hpv : forall i, i < cn G0 -> nth i pv 0 = marg0 (G0 :: Y') i) by (intros; now apply pvec1_marg0).
+  assert (Hm0nn : forall i, i < cn G0 -> nn (marg0 (G0 :: Y') i)).
+  { intros i Hi. unfold marg0. apply msum_nn. intros idx Hidx. apply Hnn. constructor; auto. }
+  assert (Hclip : clip K (map (fun x => x + 0) pv) = map (fun x => x + 0) pv).
+  { apply clip_nn. apply Forall_forall. intros x Hx. apply in_map_iff in Hx as (y & <- & Hy).
+    apply Hnn_add; [|exact Hnn0]. unfold pv, pvec in Hy. apply in_tab in Hy as (i & Hi & ->).
+    specialize (Hpv i Hi). unfold pv, pvec in Hpv. rewrite nth_tab in Hpv by auto. rewrite Hpv. now apply Hm0nn. }
+  rewrite Hclip. set (q := map (fun x => x + 0) pv) in *.
+  assert (Hsv : lsum q = total (G0 :: Y')).
+  { unfold q. rewrite lsum_map_add_const. unfold pv, w1. rewrite total_dot by auto. rewrite bsum_0 by auto. ring. }
+  assert (Hs : lsum q <> 0) by (now rewrite Hsv).
+  rewrite (normalise_intro _ Hs). cbn [rbind]. set (p0 := map (fun x => x / lsum q) q).
+  assert (Hql : length q = cn G0) by (unfold q; rewrite map_length; apply pvec_length).
+  assert (Hp0l : length p0 = cn G0) by (unfold p0; rewrite map_length; exact Hql).
+  assert (Hp0ne : p0 <> []).
+  { intros E. apply (lsum_nil_ne _ Hs). apply length_zero_iff_nil. rewrite Hql, <- Hp0l, E. reflexivity. }
+  assert (Hp01 : lsum p0 = 1) by (unfold p0; now apply lsum_normalised).
+  set (st0 := tab m (fun j => Ok (mk_rowst (crow K G0 (ch O j p0)) [ch O j p0] [p0]))).
+  destruct (rall_intro (modes O m 1 (zipw (row_step K ch) Y' (tl (phis K Y'))) st0)) as (rows & Hrows).
+  2:{ rewrite Hrows. cbn [rmap]. eauto. }
+  intros x Hx. apply (In_nth _ _ (Err OtherError)) in Hx as (j & Hj & <-).
+  rewrite modes_length in Hj by apply tab_length. rewrite modes_nth by (auto; apply tab_length).
+  unfold st0. rewrite nth_tab by auto. set (i0 := ch O j p0).
+  assert (Hi0 : i0 < cn G0) by (rewrite <- Hp0l; apply Hch; exact Hp0ne).
+  apply (walk_succeeds O m j Y' (cr2 G0) (crow K G0 i0)); auto.
+  - apply tab_length.
+  - intros idx Hidx. rewrite <- (vstep_one _ _ H1). apply (Hnn (i0 :: idx)). constructor; auto.
+  - intros _. rewrite <- (vstep_one _ _ H1). rewrite <- (nth_pvec _ _ _ _ Hi0). fold w1 pv.
+    intros Z. apply (Hpos O j p0 Hp01). fold i0. unfold p0. rewrite nth_normalised. unfold q.
+    rewrite (nth_map_in _ _ _ _ 0) by (unfold pv; now rewrite pvec_length). rewrite Z.
+    replace (0 + 0) with 0 by ring. apply div_0_l.
+Qed.
+
+(* ====================================================================================================== *)
+(* ---------- every vector handed to choice has non-negative entries (any tensor: np.maximum(p, 0) / squares) ---------- *)
+Hypothesis Hnn_div : forall a b, nn a -> nn b -> nn (a / b).
+Hypothesis Hnn_sq : forall a, nn (a * a).
+
+Lemma clip_all_nn p : Forall nn (clip K p).
+Proof.
+  unfold clip. apply Forall_forall. intros y Hy. apply in_map_iff in Hy as (x & <- & _).
+  destruct (oleb K 0 x) eqn:E; [exact E | exact Hnn0].
+Qed.
+Lemma lsum_nn p : Forall nn p -> nn (lsum p).
+Proof. induction 1; simpl; [exact Hnn0 | now apply Hnn_add]. Qed.
+Lemma normalise_nn p q : Forall nn p -> normalise K p = Ok q -> Forall nn q.
+Proof.
+  intros Hp H. apply normalise_ok in H as [_ ->]. apply Forall_forall. intros y Hy.
+  apply in_map_iff in Hy as (x & <- & Hx). apply Hnn_div; [|now apply lsum_nn].
+  rewrite Forall_forall in Hp. now apply Hp.
+Qed.
+Lemma sqnorms_nn rows : Forall nn (sqnorms K rows).
+Proof.
+  unfold sqnorms. apply Forall_forall. intros y Hy. apply in_map_iff in Hy as (qv & <- & _).
+  apply lsum_nn. apply Forall_forall. intros z Hz. apply in_map_iff in Hz as (x & <- & _). apply Hnn_sq.
+Qed.
+
+Definition allnn (P : list (list T)) : Prop := Forall (Forall nn) P.
+Definition step_nn (stp : stepT) : Prop := forall c s s', stp c s = Ok s' -> allnn (rP s) -> allnn (rP s').
+Lemma row_step_nn G w : step_nn (row_step K ch G w).
+Proof.
+  intros c s s' H Hs. unfold row_step in H. apply rbind_ok in H as (p & Hp & E). inversion E; subst s'. cbn [rP].
+  apply Forall_app. split; [exact Hs|]. constructor; [|constructor].
+  eapply normalise_nn; [|exact Hp]. apply clip_all_nn.
+Qed.
+Lemma sq_row_step_nn G : step_nn (sq_row_step K ch G).
+Proof.
+  intros c s s' H Hs. unfold sq_row_step in H. apply rbind_ok in H as (p & Hp & E). inversion E; subst s'. cbn [rP].
+  apply Forall_app. split; [exact Hs|]. constructor; [|constructor].
+  eapply normalise_nn; [|exact Hp]. apply sqnorms_nn.
+Qed.
+Lemma walk_nn base m j : forall (steps : list stepT) k s0 s1, Forall step_nn steps ->
+  walk base m j k steps (Ok s0) = Ok s1 -> allnn (rP s0) -> allnn (rP s1).
+Proof.
+  induction steps as [|stp steps IH]; intros k s0 s1 HF Hw H0; simpl in Hw.
+  - now inversion Hw; subst.
+  - inversion HF as [|? ? Hstp HF']; subst. cbn [rbind] in Hw.
+    destruct (stp (callno base m k j) s0) as [s'|e] eqn:E; [|now rewrite walk_err in Hw].
+    apply (IH _ _ _ HF' Hw). now apply (Hstp _ _ _ E).
+Qed.
+Lemma zipw_Forall {A B C} (P : C -> Prop) (f : A -> B -> C) l1 : forall l2,
+  (forall x y, P (f x y)) -> Forall P (zipw f l1 l2).
+Proof. induction l1 as [|x l1 IH]; intros [|y l2] H; simpl; constructor; auto. Qed.
+
+Theorem sample_probs_nn Y m u II P : sample K ch Y m u = Ok (II, P) -> Forall allnn P.
+Proof.
+  intros H. destruct Y as [|G0 Y']; [discriminate|]. unfold sample in H.
+  apply rbind_ok in H as (p0 & Hp0 & H). apply normalise_nn in Hp0; [|apply clip_all_nn].
+  apply rmap_ok in H as (rows & Hrows & E). inversion E; subst II P. clear E.
+  set (st0 := tab m (fun j => Ok (mk_rowst (crow K G0 (ch O j p0)) [ch O j p0] [p0]))) in *.
+  apply rall_ok in Hrows as [HL HN]. rewrite (modes_length _ _ _ _ st0) in HL, HN by apply tab_length.
+  apply Forall_forall. intros x Hx. apply (In_nth _ _ []) in Hx as (j & Hj & <-).
+  rewrite map_length, HL in Hj.
+  specialize (HN j (Err OtherError) rowst0 Hj). rewrite modes_nth in HN by (auto; apply tab_length).
+  unfold st0 in HN. rewrite nth_tab in HN by auto.
+  change (@nil (list T)) with (rP rowst0). rewrite map_nth.
+  eapply walk_nn; [|exact HN|].
+  - apply zipw_Forall. intros; apply row_step_nn.
+  - cbn [rP]. constructor; [exact Hp0|constructor].
+Qed.
+
+Lemma sq_draw_probs_nn base Zt m1 rows : sq_draw K ch base Zt m1 = Ok rows -> Forall allnn (map rP rows).
+Proof.
+  intros H. destruct Zt as [|G0 Zt']; [discriminate|]. unfold sq_draw in H.
+  apply rbind_ok in H as (p0 & Hp0 & Hrows). apply normalise_nn in Hp0; [|apply sqnorms_nn].
+  set (st0 := tab m1 (fun j => Ok (mk_rowst (crow K G0 (ch base j p0)) [ch base j p0] [p0]))) in *.
+  apply rall_ok in Hrows as [HL HN]. rewrite (modes_length _ _ _ _ st0) in HL, HN by apply tab_length.
+  apply Forall_forall. intros x Hx. apply (In_nth _ _ []) in Hx as (j & Hj & <-).
+  rewrite map_length, HL in Hj.
+  specialize (HN j (Err OtherError) rowst0 Hj). rewrite modes_nth in HN by (auto; apply tab_length).
+  unfold st0 in HN. rewrite nth_tab in HN by auto.
+  change (@nil (list T)) with (rP rowst0). rewrite map_nth.
+  eapply walk_nn; [|exact HN|].
+  - apply Forall_forall. intros stp Hin. apply in_map_iff in Hin as (G & <- & _). apply sq_row_step_nn.
+  - cbn [rP]. constructor; [exact Hp0|constructor].
+Qed.
+Theorem square_probs_nn Zt m unique : forall fuel base m_fact max_rep II atts,
+  sq_loop K ch shufr fuel base Zt m unique m_fact max_rep = Ok (II, atts) ->
+  Forall (fun att => Forall allnn (snd att)) atts.
+Proof.
+  induction fuel as [|fuel IH]; intros base m_fact max_rep II atts H; [discriminate|].
+  cbn [sq_loop] in H. apply rbind_ok in H as (rows & Hd & H). apply sq_draw_probs_nn in Hd.
+  destruct unique.
+  - destruct (length (uniq_rows (map ridx rows)) <? m).
+    + destruct ((max_rep <? 0)%Z || (1000000 <? Z.of_nat m_fact)%Z)%bool; [discriminate|].
+      apply rmap_ok in H as ([I1 atts1] & Hrec & E). inversion E; subst II atts. clear E. cbn [snd].
+      constructor; [exact Hd|]. exact (IH _ _ _ _ _ Hrec).
+    + apply rmap_ok in H as (I' & _ & E). inversion E; subst. constructor; [exact Hd|constructor].
+  - apply rmap_ok in H as (I' & _ & E). inversion E; subst. constructor; [exact Hd|constructor].
+Qed.
+
+(* ====================================================================================================== *)
+(* ---------- sample_square returns or raises ValueError (progress), generator never draws a zero-probability index ---------- *)
+Lemma walk_sq_succeeds base m j : forall Ys r v s0 k,
+  chain r Ys 1 -> length v = r -> rv s0 = v -> Forall row_orth Ys -> (Ys <> [] -> nrm2 r v <> 0) ->
+  exists s1, walk base m j k (map (sq_row_step K ch) Ys) (Ok s0) = Ok s1.
+Proof.
+  induction Ys as [|G Ys IH]; intros r v s0 k Hc L Hv HO Hne.
+  - simpl. eauto.
+  - destruct Hc as [Hr Hc]. inversion HO as [|? ? HG HO']; subst. cbn [map walk rbind].
+    rewrite sq_row_step_eq. set (v := rv s0) in *.
+    assert (Hsum : lsum (sqnorms K (qrows v G)) = nrm2 (cr1 G) v)
+      by (rewrite lsum_sqnorms_qrows; now apply nrm2_vstep_sum).
+    assert (Hs : lsum (sqnorms K (qrows v G)) <> 0) by (rewrite Hsum; apply Hne; discriminate).
+    rewrite (normalise_intro _ Hs). cbn [rbind].
+    set (s := lsum (sqnorms K (qrows v G))) in *. set (p := map (fun x => x / s) (sqnorms K (qrows v G))) in *.
+    assert (Hpl : length p = cn G) by (unfold p; rewrite map_length, sqnorms_length; apply tab_length).
+    assert (Hpne : p <> []).
+    { intros E. apply (lsum_nil_ne _ Hs). apply length_zero_iff_nil.
+      rewrite sqnorms_length. unfold qrows. rewrite tab_length, <- Hpl, E. reflexivity. }
+    set (i := ch (callno base m k j) O p) in *.
+    assert (Hi : i < cn G) by (rewrite <- Hpl; apply Hch; exact Hpne).
+    assert (Hp1 : lsum p = 1) by (unfold p, s; now apply lsum_normalised).
+    assert (Eq : nth i (qrows v G) [] = vstep v G i) by (unfold qrows; now rewrite nth_tab).
+    rewrite Eq.
+    apply (IH (cr2 G) (vstep v G i)); auto; [apply vstep_length|].
+    intros _ Z. apply (Hpos (callno base m k j) O p Hp1). fold i. unfold p, s. rewrite nth_normalised.
+    rewrite nth_sqnorms_qrows by auto. rewrite Z. apply div_0_l.
+Qed.
+
+Lemma sq_draw_succeeds base Zt m1 : Zt <> [] -> chain 1 Zt 1 -> Forall row_orth (tl Zt) -> total2 Zt <> 0 ->
+  exists rows, sq_draw K ch base Zt m1 = Ok rows.
+Proof.
+  intros HZ Hc HO Ht. destruct Zt as [|G0 Zt']; [congruence|]. destruct Hc as [H1 Hc]. cbn [tl] in HO.
+  unfold sq_draw. set (q := sqnorms K (tab (cn G0) (crow K G0))).
+  assert (Hsv : lsum q = total2 (G0 :: Zt')) by (now apply total2_first).
+  assert (Hs : lsum q <> 0) by (now rewrite Hsv).
+  rewrite (normalise_intro _ Hs). cbn [rbind]. set (p0 := map (fun x => x / lsum q) q).
+  assert (Hql : length q = cn G0) by (unfold q; rewrite sqnorms_length; apply tab_length).
+  assert (Hp0l : length p0 = cn G0) by (unfold p0; rewrite map_length; exact Hql).
+  assert (Hp0ne : p0 <> []).
+  { intros E. apply (lsum_nil_ne _ Hs). apply length_zero_iff_nil. rewrite Hql, <- Hp0l, E. reflexivity. }
+  assert (Hp01 : lsum p0 = 1) by (unfold p0; now apply lsum_normalised).
+  set (st0 := tab m1 (fun j => Ok (mk_rowst (crow K G0 (ch base j p0)) [ch base j p0] [p0]))).
+  apply rall_intro. intros x Hx. apply (In_nth _ _ (Err OtherError)) in Hx as (j & Hj & <-).
+  rewrite modes_length in Hj by apply tab_length. rewrite modes_nth by (auto; apply tab_length).
+  unfold st0. rewrite nth_tab by auto. set (i0 := ch base j p0).
+  assert (Hi0 : i0 < cn G0) by (rewrite <- Hp0l; apply Hch; exact Hp0ne).
+  apply (walk_sq_succeeds base m1 j Zt' (cr2 G0) (crow K G0 i0)); auto; [apply tab_length|].
+  intros _ Z. apply (Hpos base j p0 Hp01). fold i0. unfold p0. rewrite nth_normalised.
+  unfold q, sqnorms. rewrite map_tab, nth_tab by auto. rewrite lsum_sq_nrm2. unfold crow at 1. rewrite tab_length.
+  rewrite Z. apply div_0_l.
+Qed.
+
+Definition ok_or_value_error {A} (r : result A) : Prop := (exists x, r = Ok x) \/ r = Err ValueError \/ r = Err OutOfFuel.
+Lemma take_m_outcome {A B} m (l : list A) (f : list A -> B) : ok_or_value_error (rmap f (take_m m l)).
+Proof. unfold take_m. destruct (length (firstn m l) =? m); simpl; [left; eauto | right; now left]. Qed.
+Lemma sq_loop_outcome Zt m unique : Zt <> [] -> chain 1 Zt 1 -> Forall row_orth (tl Zt) -> total2 Zt <> 0 ->
+  forall fuel base m_fact max_rep, ok_or_value_error (sq_loop K ch shufr fuel base Zt m unique m_fact max_rep).
+Proof.
+  intros HZ Hc HO Ht. induction fuel as [|fuel IH]; intros base m_fact max_rep; [right; now right|].
+  cbn [sq_loop]. destruct (sq_draw_succeeds base Zt (if unique then (m_fact * m)%nat else m) HZ Hc HO Ht) as (rows & ->).
+  cbn [rbind]. destruct unique; [|apply take_m_outcome].
+  destruct (length (uniq_rows (map ridx rows)) <? m); [|apply take_m_outcome].
+  destruct ((max_rep <? 0)%Z || (1000000 <? Z.of_nat m_fact)%Z)%bool; [right; now left|].
+  destruct (IH (base + 1 + (length Zt - 1) * (m_fact * m))%nat (2 * m_fact)%nat (max_rep - 1)%Z) as [(x & ->)|[->| ->]];
+    simpl; [left; eauto | right; now left | right; now right].
+Qed.
+Theorem sample_square_outcome Zt m unique m_fact max_rep :
+  Zt <> [] -> chain 1 Zt 1 -> Forall row_orth (tl Zt) -> total2 Zt <> 0 ->
+  (exists II atts, sample_square K ch shufr Zt m unique m_fact max_rep = Ok (II, atts)) \/
+  sample_square K ch shufr Zt m unique m_fact max_rep = Err ValueError.
+Proof.
+  intros HZ Hc HO Ht. pose proof (sample_square_terminates Zt m unique m_fact max_rep) as Hno.
+  unfold sample_square in *.
+  destruct (sq_loop_outcome Zt m unique HZ Hc HO Ht (S (Z.to_nat (max_rep + 1))) O m_fact max_rep) as [([II atts] & E)|[E|E]].
+  - left. eauto.
+  - now right.
+  - contradiction.
+Qed.
+
 End SampleP.
 
 (* ---------- packaging of the laws, and their instance at Qc (non-vacuity; the correspondence runs at Qc) ---------- *)
@@ -384,6 +1000,7 @@ Proof.
 Qed.
 
 From Coq Require Import QArith Qcanon.
+Local Open Scope nat_scope.
 Lemma OQc_field_laws : field_laws OQc.
 Proof.
   repeat split.
@@ -405,4 +1022,159 @@ Proof.
   - apply Qc_nn_iff. apply Qcle_refl.
   - intros a b Ha Hb. apply Qc_nn_iff in Ha, Hb. apply Qc_nn_iff. cbn.
     replace 0%Qc with (0 + 0)%Qc by ring. now apply Qcplus_le_compat.
+Qed.
+
+(* ---------- closed forms of the remaining theorems ---------- *)
+Definition shuffle_ok (shufr : nat -> list (list nat) -> list (list nat)) : Prop :=
+  forall c l, Permutation l (shufr c l).
+
+Theorem sample_in_bounds {T} (K : ops T) : field_laws K -> forall ch, choice_ok ch ->
+  forall Y m u II P, sample K ch Y m u = Ok (II, P) -> length II = m /\ Forall (inb (shape Y)) II.
+Proof. intros (_ & _ & F3) ch Hch. exact (sample_bounds K F3 ch Hch). Qed.
+
+Theorem square_chain {T} (K : ops T) : rng K -> field_laws K -> forall ch, choice_ok ch ->
+  forall shufr, shuffle_ok shufr -> forall Zt m unique m_fact max_rep II atts,
+  chain 1 Zt 1 -> Forall (row_orth K) (tl Zt) ->
+  sample_square K ch shufr Zt m unique m_fact max_rep = Ok (II, atts) ->
+  length II = m /\ Forall (inb (shape Zt)) II /\ (unique = true -> NoDup II) /\
+  atts <> [] /\ Forall (attempt_ok K Zt) atts /\
+  (forall x, In x II -> In x (fst (last atts ([], [])))).
+Proof. intros Rth (F1 & F2 & F3) ch Hch shufr Hsh. exact (sample_square_spec K Rth F1 F2 F3 ch Hch shufr Hsh). Qed.
+
+Theorem square_chain_scaled {T} (K : ops T) : rng K -> field_laws K ->
+  forall Y Zt c idx Pj, shape Y = shape Zt ->
+  (forall idx0, inb (shape Zt) idx0 -> get K Y idx0 = omul K c (get K Zt idx0)) ->
+  sq_row_ok K Zt idx Pj ->
+  omul K (lprod K (along (o0 K) idx Pj)) (total2 K Y) = sq K (get K Y idx) /\
+  (total2 K Y <> o0 K -> lprod K (along (o0 K) idx Pj) = odiv K (sq K (get K Y idx)) (total2 K Y)).
+Proof. intros Rth (F1 & F2 & F3). exact (sq_row_ok_scaled K Rth F1 F2). Qed.
+
+
+(* progress: with unsert = 0 and a generator that never returns an index of probability zero, sample returns *)
+Definition choice_pos {T} (K : ops T) (ch : nat -> nat -> list T -> nat) : Prop :=
+  forall c t p, lsum K p = o1 K -> nth (ch c t p) p (o0 K) <> o0 K.
+Theorem sample_returns {T} (K : ops T) : rng K -> field_laws K -> order_laws K ->
+  forall ch, choice_ok ch -> choice_pos K ch -> forall Y m, Y <> [] ->
+  chain 1 Y 1 -> (forall idx, inb (shape Y) idx -> nn K (get K Y idx)) -> total K Y <> o0 K ->
+  exists II P, sample K ch Y m (o0 K) = Ok (II, P).
+Proof.
+  intros Rth (F1 & F2 & F3) (O1 & O2) ch Hch Hpos. exact (sample_succeeds K Rth F1 F2 F3 O1 O2 ch Hch Hpos).
+Qed.
+
+(* a generator meeting both contracts exists: the first index whose probability is not zero *)
+Fixpoint first_nz' {T} (K : ops T) (p : list T) : nat :=
+  match p with [] => O | x :: p' => if oeqb K x (o0 K) then S (first_nz' K p') else O end.
+Definition first_nz {T} (K : ops T) (p : list T) : nat :=
+  if first_nz' K p <? length p then first_nz' K p else O.
+Lemma first_nz_spec {T} (K : ops T) : rng K -> field_laws K -> forall p,
+  first_nz' K p <= length p /\ (first_nz' K p < length p -> nth (first_nz' K p) p (o0 K) <> o0 K) /\
+  (first_nz' K p = length p -> lsum K p = o0 K).
+Proof.
+  intros Rth (_ & _ & F3) p. induction p as [|x p (I1 & I2 & I3)]; simpl.
+  - repeat split; auto. intros; lia.
+  - destruct (oeqb K x (o0 K)) eqn:E.
+    + apply F3 in E. subst x. repeat split; [lia| |].
+      * intros H. apply I2. lia.
+      * intros H. rewrite I3 by lia. apply (Radd_0_l Rth).
+    + repeat split; [lia| |intros; lia]. intros _ Z. subst x.
+      assert (oeqb K (o0 K) (o0 K) = true) by (now apply F3). congruence.
+Qed.
+Lemma first_nz_contract {T} (K : ops T) : rng K -> field_laws K -> o1 K <> o0 K ->
+  choice_ok (fun _ _ : nat => first_nz K) /\ choice_pos K (fun _ _ : nat => first_nz K).
+Proof.
+  intros Rth FL H10. split.
+  - intros c t p Hp. unfold first_nz. destruct (first_nz' K p <? length p) eqn:E.
+    + now apply Nat.ltb_lt.
+    + destruct p; [congruence|simpl; lia].
+  - intros c t p Hs. destruct (first_nz_spec K Rth FL p) as (I1 & I2 & I3). unfold first_nz.
+    destruct (first_nz' K p <? length p) eqn:E.
+    + apply I2. now apply Nat.ltb_lt.
+    + apply Nat.ltb_ge in E. rewrite I3 in Hs by lia. congruence.
+Qed.
+
+
+(* every vector handed to choice has non-negative entries: any tensor, any generator *)
+Definition order_laws2 {T} (K : ops T) : Prop :=
+  order_laws K /\ (forall a b, nn K a -> nn K b -> nn K (odiv K a b)) /\ (forall a, nn K (omul K a a)).
+Theorem sample_probs_nonneg {T} (K : ops T) : field_laws K -> order_laws2 K ->
+  forall ch Y m u II P, sample K ch Y m u = Ok (II, P) -> Forall (Forall (Forall (nn K))) P.
+Proof. intros (_ & _ & F3) ((O1 & O2) & O3 & _) ch. exact (sample_probs_nn K F3 O1 O2 ch O3). Qed.
+Theorem square_probs_nonneg {T} (K : ops T) : field_laws K -> order_laws2 K ->
+  forall ch shufr Zt m unique m_fact max_rep II atts,
+  sample_square K ch shufr Zt m unique m_fact max_rep = Ok (II, atts) ->
+  Forall (fun att => Forall (Forall (Forall (nn K))) (snd att)) atts.
+Proof.
+  intros (_ & _ & F3) ((O1 & O2) & O3 & O4) ch shufr Zt m unique m_fact max_rep II atts H.
+  exact (square_probs_nn K F3 O1 O2 ch shufr O3 O4 Zt m unique _ _ _ _ _ _ H).
+Qed.
+
+
+Theorem square_returns {T} (K : ops T) : rng K -> field_laws K ->
+  forall ch, choice_ok ch -> choice_pos K ch -> forall shufr Zt m unique m_fact max_rep,
+  Zt <> [] -> chain 1 Zt 1 -> Forall (row_orth K) (tl Zt) -> total2 K Zt <> o0 K ->
+  (exists II atts, sample_square K ch shufr Zt m unique m_fact max_rep = Ok (II, atts)) \/
+  sample_square K ch shufr Zt m unique m_fact max_rep = Err ValueError.
+Proof.
+  intros Rth (F1 & F2 & F3) ch Hch Hpos shufr. exact (sample_square_outcome K Rth F1 F2 F3 ch Hch shufr Hpos).
+Qed.
+
+(* ---------- non-vacuity: concrete runs over Qc ---------- *)
+Definition exq (z : Z) : Qc := Q2Qc (inject_Z z).
+Definition exqq (a b : Z) : Qc := (exq a / exq b)%Qc.
+Definition qshow (x : Qc) : Z * Z := (Qnum (this x), Zpos (Qden (this x))).
+(* a non-negative 2 x 3 tensor of rank 2: [[3, 2, 2], [3, 3, 0]], total 13 *)
+Definition ex_Y : list (core Qc) :=
+  [ mk_core 1 2 2 [[[exq 1; exq 2]; [exq 0; exq 3]]];
+    mk_core 2 3 1 [[[exq 1]; [exq 0]; [exq 2]]; [[exq 1]; [exq 1]; [exq 0]]] ].
+Definition ex_ch (rec : list (list nat)) (c t : nat) (p : list Qc) : nat := nth t (nth c rec []) O.
+Lemma sample_example :
+  chain 1 ex_Y 1 /\ (forall idx, inb (shape ex_Y) idx -> nn OQc (get OQc ex_Y idx)) /\
+  exists P : list (list (list Qc)),
+    sample OQc (ex_ch [[1; 1; 0]; [2]; [1]; [0]]) ex_Y 3 (exq 0) = Ok ([[1; 2]; [1; 1]; [0; 0]], P) /\
+    map (fun r => qshow (lprod OQc (along (exq 0) (fst r) (snd r)))) (combine [[1; 2]; [1; 1]; [0; 0]] P)
+      = [(0, 1); (3, 13); (3, 13)]%Z /\
+    qshow (total OQc ex_Y) = (13, 1)%Z.
+Proof.
+  split; [repeat split|]. split.
+  - intros idx H. inversion H as [|i n idx1 ns Hi H1]; subst. inversion H1 as [|i2 n2 idx2 ns2 Hi2 H2]; subst.
+    inversion H2; subst. simpl in Hi, Hi2.
+    destruct i as [|[|i]]; try lia; destruct i2 as [|[|[|i2]]]; try lia; vm_compute; reflexivity.
+  - eexists. split; [vm_compute; reflexivity|]. split; vm_compute; reflexivity.
+Qed.
+
+(* a tensor whose second core has orthonormal rows (3/5, 4/5), (-4/5, 3/5); squared norm 6 *)
+Definition ex_Z : list (core Qc) :=
+  [ mk_core 1 2 2 [[[exq 1; exq 2]; [exq 0; exq (-1)]]];
+    mk_core 2 2 1 [[[exqq 3 5]; [exqq 4 5]]; [[exqq (-4) 5]; [exqq 3 5]]] ].
+Lemma square_example :
+  chain 1 ex_Z 1 /\ Forall (row_orth OQc) (tl ex_Z) /\ qshow (total2 OQc ex_Z) = (6, 1)%Z /\
+  (exists atts, sample_square OQc (ex_ch [[0; 1; 1; 0]; [0]; [0]; [1]; [0]]) (fun _ l => rev l) ex_Z 2 true 2 0%Z
+               = Ok ([[1; 1]; [1; 0]], atts)) /\
+  sample_square OQc (ex_ch [[0; 0]; [0]; [0]; [0; 0; 0; 0]; [0]; [0]; [0]; [0]]) (fun _ l => l) ex_Z 2 true 1 0%Z
+               = Err ValueError.
+Proof.
+  split; [repeat split|]. split; [|split; [vm_compute; reflexivity|]].
+  - constructor; [|constructor]. intros a a' Ha Ha'. cbn in Ha, Ha'.
+    destruct a as [|[|a]]; try lia; destruct a' as [|[|a']]; try lia; apply Qc_is_canon; vm_compute; reflexivity.
+  - split; [eexists|]; vm_compute; reflexivity.
+Qed.
+Lemma first_nz_contract_Qc :
+  choice_ok (fun _ _ : nat => first_nz OQc) /\ choice_pos OQc (fun _ _ : nat => first_nz OQc) /\
+  ex_Y <> [] /\ total OQc ex_Y <> o0 OQc.
+Proof.
+  destruct (first_nz_contract OQc OQc_rng OQc_field_laws) as [A B]; [discriminate|].
+  repeat split; auto; discriminate.
+Qed.
+From Coq Require Import Lqa.
+Lemma OQc_order_laws2 : order_laws2 OQc.
+Proof.
+  split; [exact OQc_order_laws|]. split.
+  - intros a b Ha Hb. apply Qc_nn_iff in Ha, Hb. apply Qc_nn_iff. cbn.
+    unfold Qcle in *. unfold Qcdiv, Qcmult, Qcinv. cbn [this Q2Qc] in *. rewrite !Qred_correct.
+    apply Qmult_le_0_compat; [exact Ha | now apply Qinv_le_0_compat].
+  - intros a. apply Qc_nn_iff. cbn. unfold Qcle, Qcmult. cbn [this Q2Qc].
+    generalize (this a). intros x. rewrite ?Qred_correct. change (0 <= x * x)%Q.
+    destruct (Qlt_le_dec x 0) as [Hx|Hx]; [|now apply Qmult_le_0_compat].
+    setoid_replace (x * x)%Q with ((- x) * (- x))%Q by ring.
+    apply Qmult_le_0_compat; apply Qlt_le_weak; lra.
 Qed.
